@@ -101,8 +101,32 @@ func (fr *Frame) callFunc(fn *ssa.Function, pos token.Pos, st *State, args []*Te
 		chain += ">"
 	}
 	chain += funcName(fn)
+	var preInline *State
+	inlineSpec := lookupSpec(fn)
+	if inlineSpec != nil && len(inlineSpec.GhostSets) > 0 {
+		preInline = st.clone()
+	}
 	res, out, retReach := ex.run(fn, args, freeVars, st, fr.reach[fr.curBlock], chain, fr.depth+1)
 	st.arrs = out.arrs
+	if preInline != nil && retReach != False {
+		// ghost assignments of an inlined contract take effect at the callee's exit
+		genv := ex.specEnv(fr, fn, inlineSpec, args, st, preInline)
+		genv.bindResults(fn.Signature, inlineSpec, res)
+		for _, gs := range inlineSpec.GhostSets {
+			var locs []Loc
+			var v *Term
+			_, err := ex.safeEval(genv, func() *Term {
+				locs = genv.locsOf(gs.Loc)
+				v = genv.toGhostSort(genv.eval(gs.Val), ghostSortOfArr(locs[0].arr))
+				return True
+			})
+			if err != "" {
+				fatal("contract error in ghostset of %s: %s", funcName(fn), err)
+			}
+			srt := memArrays[locs[0].arr]
+			st.set(locs[0].arr, Store(st.get(locs[0].arr, srt), locs[0].addr, v))
+		}
+	}
 	if retReach == False {
 		// callee never returns normally (always panics): path ends; give dummies
 		res = nil
@@ -148,7 +172,7 @@ func (fr *Frame) havocArg(a *Term, T types.Type, st *State, pos token.Pos) {
 		base := Acc("sbase", a)
 		am := st.amem(E)
 		if checkFrames {
-			fr.obl("store.global", pos, Or(Eq(base, Null), ILt(IntLit(int64(prog.NG)), Acc("rid", base))), "C20")
+			fr.obl("extwrite.global", pos, Or(Eq(base, Null), ILt(IntLit(int64(prog.NG)), Acc("rid", base))), "C20")
 		}
 		st.set(amemName(E), Store(am, base, Fresh("ext$arr", am.Sort.Elem)))
 	}
